@@ -1213,7 +1213,7 @@ func (e *Engine) convert(st *State, a Val, from, to types.Type) Val {
 	if wt > 0 && wf > 0 {
 		t, ok := scalarOf(a)
 		if !ok {
-			return Poison{"convert: non-scalar"}
+			return Poison{"convert: non-scalar: " + describe(a)}
 		}
 		return Scalar{b.Resize(t, wt, isSigned(from))}
 	}
@@ -1417,4 +1417,20 @@ func (e *Engine) viewGuard(st *State, pv Val, pos token.Pos) {
 		e.guard(st, e.b.Ule(off, e.b.BV(64, n-sz)), "unsafe typed access beyond the end of the buffer", pos)
 		return
 	}
+}
+
+func describe(v Val) string {
+	switch x := v.(type) {
+	case Union:
+		s := "Union{"
+		for _, a := range x.alts {
+			s += describe(a.v) + "; "
+		}
+		return s + "}"
+	case Poison:
+		return "Poison(" + x.why + ")"
+	case ArrayV:
+		return fmt.Sprintf("Array[%d]", len(x.e))
+	}
+	return fmt.Sprintf("%T", v)
 }
